@@ -116,6 +116,8 @@ impl LoadBalancer {
       if !self.state.lock().peers.is_empty() {
         return Ok(());
       }
+      #[cfg(rzmq_verif)]
+      crate::verif::apoint("lb.wait.after_check").await;
       notify.notified().await;
     }
   }
